@@ -94,6 +94,14 @@ class Armorable(metaclass=abc.ABCMeta):
         return isinstance(text, str) and text.lstrip().startswith('-----BEGIN PGP SIGNED MESSAGE-----')
 
     @staticmethod
+    def is_armor_framed(text):
+        # does the input START with an armor header line? (binary OpenPGP data never does: the first octet of a packet has bit 7 set)
+        if isinstance(text, (bytes, bytearray)):
+            return bytes(text).lstrip().startswith(b'-----BEGIN PGP ')
+
+        return isinstance(text, str) and text.lstrip().startswith('-----BEGIN PGP ')
+
+    @staticmethod
     def is_armor(text):
         """
         Whether the ``text`` provided is an ASCII-armored PGP block.
@@ -119,11 +127,12 @@ class Armorable(metaclass=abc.ABCMeta):
         """
         m = {'magic': None, 'headers': None, 'body': bytearray(), 'crc': None}
         if not Armorable.is_ascii(text):
-            if not Armorable.is_cleartext_framed(text):
+            if not Armorable.is_armor_framed(text):
                 m['body'] = bytearray(text)
                 return m
 
-            # the text of a cleartext signed message need not be ASCII (RFC 4880, section 7: UTF-8 unless a Charset header says otherwise)
+            # the text of a cleartext signed message and the values of armor headers need not be ASCII (RFC 4880, sections 7 and 6.2:
+            # UTF-8 unless a Charset header says otherwise)
             if isinstance(text, (bytes, bytearray)):
                 try:
                     text = text.decode('utf-8')
@@ -213,7 +222,7 @@ class Armorable(metaclass=abc.ABCMeta):
     def from_blob(cls, blob):
         obj = cls()
         if (not isinstance(blob, bytes)) and (not isinstance(blob, bytearray)):
-            if Armorable.is_cleartext_framed(blob) and not Armorable.is_ascii(blob):
+            if Armorable.is_armor_framed(blob) and not Armorable.is_ascii(blob):
                 # keep the characters of a cleartext signed message as they are
                 po = obj.parse(blob)
 
